@@ -140,9 +140,10 @@ PE(e, b) ==
 \* integers, so lengths have den 4, areas 16, volumes 64.  Only defined where the property fixes the value.
 AffQ(a, env) == a.c + 4 * SumOver(DOMAIN a.k, [n \in DOMAIN a.k |-> a.k[n] * env[n]])      \* quarter units, env = integer parameter row
 AffVQ(av, env) == [i \in DOMAIN av |-> AffQ(av[i], env)]
+\* integer square root by Newton's iteration from above (start 46340 = floor(sqrt(2^31)), no 32-bit overflow)
 RECURSIVE ISqrtR(_, _)
-ISqrtR(n, r) == IF r * r <= n /\ (r + 1) * (r + 1) > n THEN r ELSE ISqrtR(n, IF r * r > n THEN r - 1 ELSE (r + n \div r) \div 2 + 1)
-ISqrt(n) == IF n <= 0 THEN 0 ELSE ISqrtR(n, IF n > 4 THEN n \div 2 ELSE 1)
+ISqrtR(n, r) == LET r2 == (r + n \div r) \div 2 IN IF r2 >= r THEN r ELSE ISqrtR(n, r2)
+ISqrt(n) == IF n <= 0 THEN 0 ELSE ISqrtR(n, 46340)
 \* euclidean length of the quarter-unit vector (dx, dy) in 1/1024 units (rounded down; error < 1 unit)
 Len1024(dx, dy) == ISqrt((dx * dx + dy * dy) * 65536)
 MAdd(m1, m2) == LET d == m1[3] * m2[3] IN <<m1[1] * m2[3] + m2[1] * m1[3], m1[2] * m2[3] + m2[2] * m1[3], d>>
@@ -182,7 +183,7 @@ PiN == 3217
 VolClose(v, m) == LET want == m[1] * 1024 + m[2] * PiN          \* = value * den * 1024
                       got == v * m[3]
                       diff == AbsI(got - want)
-                  IN diff * 256 <= AbsI(want) + 1024 * m[3]
+                  IN diff <= (AbsI(want) + 1024 * m[3]) \div 256
 VolPositive(m) == m[1] * 1024 + m[2] * PiN > 0
 
 (* ---------------------------- exact bounding boxes of primitives ---------------------------- *)
